@@ -9,7 +9,7 @@
    consumed (POSTCONDITION AllConsumed); each event's verdict (ok / skip / a
    diagnosis) goes to the verdict file, so that one rejected event never hides
    the rest of the trace. *)
-EXTENDS SemOverflow, AsCodedOverflow, SemScaled, TLC, TLCExt, Json, IOUtils, CSV
+EXTENDS SemOverflow, AsCodedOverflow, SemScaled, SemRounding, AsCodedRounding, TLC, TLCExt, Json, IOUtils, CSV
 
 Tr == ndJsonDeserialize(IOEnv.TRACE)
 Insts == ndJsonDeserialize(IOEnv.INSTS)
@@ -27,6 +27,9 @@ Verdict0(e, i) ==
       [] e.e = "ScIdent" -> JudgeScIdent(e, i)
       [] e.e = "ScConv" -> JudgeScConv(e, i)
       [] e.e = "ScRoundTrip" -> JudgeScRoundTrip(e, i)
+      [] e.e = "RDiv" -> JudgeRDiv(e, i)
+      [] e.e = "ROp" -> JudgeROp(e, i)
+      [] e.e = "RConv" -> JudgeRConv(e, i)
       [] OTHER -> [d |-> "unknown_event", nt |-> FALSE, cls |-> <<e.e>>]
 
 \* For a rejected event: does it at least equal what the as-coded model of the *unchanged* library
@@ -40,6 +43,8 @@ AsCoded(e, i) ==
            LET x == TV(i.lt, J(e.l)) IN MatchesAsCoded(AsCodedNeg(x), i.tag, e.out, J(e.res), CUn("neg", x))
       [] e.e = "OvConvInt" ->
            LET x == TV(i.lt, J(e.l)) IN MatchesAsCoded(AsCodedConv(x, i.rt), i.tag, e.out, J(e.res), CConv(x, i.rt))
+      [] e.e = "RDiv" ->
+           MatchesAsCodedRound(AsCodedRoundDiv(i.tag, TV(AsIntT(i.lt), J(e.l)), TV(AsIntT(i.rt), J(e.r))), e.out, J(e.res))
       [] OTHER -> FALSE
 
 \* The verdict of event k is kept in TLC register k (re-evaluating a step is idempotent); all
